@@ -412,17 +412,26 @@ def rule_sp_route(ctx: RuleContext, p: Program, rid: str) -> None:
         ctx.check(got == '  \r\n\t', rid, f'SpacingAccessorsMixin.spacing_{side}', 'reads the raw accessor of its own side',
                   f'spacing_{side} returns {got!r}, the tokens of raw_spacing_{side} read {"  " + chr(13) + chr(10) + chr(9)!r}', g.where)
         st_ = p.method(mx, f'spacing_{side}', setter=True, inherited=False)
-        it = Interp(me)
-        try:
-            it.call_function(st_, [me, ' \n'], {})
-            val = it.assigned.get(f'raw_spacing_{side}')
-            shape = [(x.cls, x.f['raw_text']) for x in (val or []) if isinstance(x, possem.Obj)]
-            ok = set(it.assigned) == {f'raw_spacing_{side}'} and shape == [('Whitespace', ' '), ('Newline', '\n')]
-            why = f'assigns {dict((k_, [(x.cls, x.f["raw_text"]) for x in v_]) for k_, v_ in it.assigned.items())}'
-        except possem.Raised as ex:
-            ok, why = False, f'raises {ex}'
+        # whatever the run currently holds (here: blanks, a CR LF line break, a tab), the assigned text alone decides the new tokens
+        ok, why = True, ''
+        for text, want_shape in ((' \n', [('Whitespace', ' '), ('Newline', '\n')]), (' ', [('Whitespace', ' ')]), ('\t', [('Whitespace', '\t')]), ('', []),
+                                 ('\n\n', [('Newline', '\n'), ('Newline', '\n')])):
+            it = Interp(me)
+            try:
+                it.call_function(st_, [me, text], {})
+                val = it.assigned.get(f'raw_spacing_{side}')
+                shape = [(x.cls, x.f['raw_text']) for x in (val or []) if isinstance(x, possem.Obj)]
+                if not (set(it.assigned) == {f'raw_spacing_{side}'} and shape == want_shape) and ok:
+                    ok = False
+                    why = (f'spacing_{side} = {text!r} while the run holds blanks and a line break: assigns '
+                           f'{dict((k_, [(x.cls, x.f["raw_text"]) for x in v_]) for k_, v_ in it.assigned.items())}; expected raw_spacing_{side} = {want_shape} '
+                           f'-- the tokens of the assigned text and nothing else (tokens of the old run carried over stay in the document: the '
+                           f'length does not change by the difference and the value does not read back)')
+            except possem.Raised as ex:
+                if ok:
+                    ok, why = False, f'spacing_{side} = {text!r}: raises {ex}'
         ctx.check(ok, rid, f'SpacingAccessorsMixin.spacing_{side}[set]', 'assigns the tokens of the text to the raw accessor of its own side',
-                  f'spacing_{side} = " \\n": {why}; expected raw_spacing_{side} = [Whitespace " ", Newline "\\n"]', st_.where)
+                  why, st_.where)
 
 
 def run(ctx: RuleContext, p: Program) -> None:
